@@ -1218,7 +1218,7 @@ def fast_polynomial(ctx, x, coeffs, reverse=True, scheme=None, _N=None):
     if d == 0:
         # evaluate reduced polynomial as it is
         s = ctx.constant(coeffs[0], x)
-        for i in range(1, N):
+        for i in range(1, N + 1):
             s += coeffs[i] * fast_exponent_by_squaring(ctx, x, i)
         return s
 
